@@ -9,19 +9,23 @@ import io
 import lzma
 import os.path
 import sys
+import zlib
 
 from gemato.exceptions import UnsupportedCompression
 
 
 # NB: bz2 (and gzip in py<3.8) uses generic OSError
+# (gzip raises zlib.error when the deflate stream itself is damaged)
 if sys.hexversion >= 0x03080000:
     InvalidCompressedFileExceptions = (
         gzip.BadGzipFile,
         lzma.LZMAError,
+        zlib.error,
     )
 else:
     InvalidCompressedFileExceptions = (
         lzma.LZMAError,
+        zlib.error,
     )
 
 
